@@ -311,6 +311,10 @@ async def _real_listener_scenario(seed: int) -> list[dict[str, Any]]:
     return out
 
 
+def _run_one(seed: int) -> list[dict[str, Any]]:
+    return vloop.run(lambda: _scenario(seed))  # type: ignore[no-any-return]
+
+
 def run(chk: Check) -> None:
     quick = chk.tier == "quick"
     chk.rule = (
@@ -321,8 +325,10 @@ def run(chk: Check) -> None:
     if not _model(chk, quick):
         return
     rec: list[dict[str, Any]] = []
-    for i in range(400 if quick else 4000):
-        rec += vloop.run(lambda: _scenario(chk.seed * 7919 + i))
+    from ..common import pmap
+
+    for part in pmap(_run_one, [chk.seed * 7919 + i for i in range(400 if quick else 12000)]):
+        rec += part
     for i in range(12 if quick else 300):
         rec += asyncio.run(_real_listener_scenario(chk.seed * 13 + i))
     from . import c16_eager
